@@ -796,7 +796,7 @@ func main() {
 	if a.Thorough() {
 		h.quota = 150
 	}
-	h.cases = vh.NewCases(a, "From Coq Require Import List NArith ZArith.\nFrom Verif Require Import Common.GoStr GoLite.Syntax GoLite.Sem C34.Model.\nRequire Import Gen_cti_basic_method.\nImport ListNotations.\nOpen Scope Z_scope.",
+	h.cases = vh.NewCases(a, "From Coq Require Import List NArith ZArith.\nFrom Verif Require Import Common.GoStr GoLite.Syntax GoLite.Sem C34.Model.\nAdd LoadPath \".\" as Gen.\nFrom Gen Require Import Gen_cti_basic_method.\nImport ListNotations.\nOpen Scope Z_scope.",
 		"case", "mismatches table", 450)
 	h.wd = vh.NewWatchdog(rep, 60*time.Second)
 
